@@ -211,6 +211,43 @@ CHECKS.update({
             'Selection during calibration is observed through the statistics of '
             'tensors made private by unsupported separator ops.', '7/C10'),
 })
+CHECKS.update({
+    'C15': (E1, 'exhaustive enumeration of sharing shapes x sharer types x ALL mode '
+            'tuples on the real quantize(); per-buffer consistency invariant',
+            'One constant tensor with 2-3 consumers, two tensors on one buffer, '
+            'and a buffer shared across two subgraphs/signatures, for sharer '
+            'types FC/CONV_2D/EMBEDDING_LOOKUP (weight tying)/ADD-MUL constants, '
+            'under every tuple of the 12-mode alphabet: quantize() raises, or '
+            'every referencing tensor implies the stored byte length, decodes '
+            'within one step, all referrers agree, every consumer reads the '
+            'dtype its mode requires, and the model loads.',
+            'Mode tuples are exhaustive over the 12-mode alphabet; shapes are the '
+            'small generated ones.', '7/C15'),
+    'C18': (E1, 'bounded-exhaustive BFS over graph histories x recipes x datasets x '
+            'metrics; every reported value recomputed from independent runs',
+            'For all ops/variants at depth 1, pairs at depth 2, representatives '
+            'at depth 3, under shipped recipes and uniform modes incl. int4 and '
+            'float16: the reported names cover every named tensor of the main '
+            'subgraph present in both models, each in exactly one group decided '
+            'by my own reading of the reference model; each value equals the '
+            'metric recomputed from my own interpreter runs and independent '
+            'constant decode, averaged over samples; self-comparison is 0 for '
+            'every tensor of the model; metric laws hold.',
+            'Runtime temporaries reported in addition are not constrained by the '
+            'property. Single-signature models.', '7/C18'),
+    'C19': (E1, 'exhaustive enumeration of ordered pairs/triples of subgraphs x '
+            'recipes; differential comparison multi-subgraph vs stand-alone',
+            'Ordered pairs of graphs (all one-operator graphs, all two-operator '
+            'graphs next to one-operator graphs; triples and larger pairs in '
+            'thorough) with disjoint name prefixes, equal structures under '
+            'different names, and a constant buffer shared across subgraphs, '
+            'under uniform and mixed recipes with statistics merged from '
+            'stand-alone calibrations: subgraph i of quantize(multi) must equal '
+            'subgraph 0 of quantize(single_i) in operators, options, wiring, '
+            'names, dtypes, parameters and constant bytes.',
+            'The stand-alone extract is built from the same IR (same constants).',
+            '7/C19'),
+})
 NOT_YET = {
 }
 
